@@ -141,10 +141,12 @@ fn build_file<'a>(
     if validate {
         builder.enable_validate_mode();
     }
-    builder.build(file_path_buf)?;
+    let result = builder.build(file_path_buf);
     if validate {
+        // The assertions evaluated before a build error belong in the log too.
         println!("{}", builder.assert_summary());
     }
+    result?;
     Ok(builder)
 }
 
